@@ -1,8 +1,10 @@
 import os, sys
 sys.path.insert(0, os.path.join(os.path.dirname(os.path.abspath(__file__)), '..', 'lib'))
 sys.path.insert(0, os.path.dirname(os.path.abspath(__file__)))
-import vlib, flow
+import vlib, flow, gen_trans
 import pt_common as pc
+
+gen_trans.register('mm_vmm.json')   # Go -> Gallina translation of the pageTableEntry / Frame / Page helpers (Gen/Trans_mm_vmm.v, used by Vmm/PtTrans.v)
 from pt_common import LO, P, RW, M64, M36, TEMP_PAGE
 
 
@@ -18,12 +20,12 @@ class C04(flow.Spec):
             'frames incl. 0, 2^40-1 and out-of-domain values; flag sets incl. NX/CoW/available bits; allocator failure at the k-th call; '
             'some histories with poked (huge / non-present) upper-level entries (agreement only); '
             'non-trivial = at least one successful mapping and three ops; distinct = distinct op lists')
-    assumptions = ['physical memory is simulated by the harness (host pages at a fixed address; frame = host address >> 12); the MMU is the '
-                   'harness\'s 4-level software walk with the x86-64 constants hard-coded',
-                   'TLB coherence of the recursive window while an inactive table is patched into slot 511 is outside the model',
-                   'frames handed out by the allocator are fresh (what C01 guarantees); frames < 2^40 and flags outside bits 12-51 '
-                   '(outside this domain SetFrame ors frame bits into other fields: agreement only)',
-                   'PageDirectoryTable.Map/Unmap dereference the active root\'s physical address (identity-mapped in the kernel during boot)']
+    assumptions = [
+        "physical memory is simulated by the harness (host pages at a fixed address; frame = host address >> 12); the MMU is the harness's 4-level software walk with the x86-64 constants hard-coded; the model's [mmu] uses the same architecture constants as literals and the Go constants from Gen.Consts_mm_vmm (C04_constants ties them)",
+        'theorem domain: pages outside top-level slot 511 (the recursive window itself), frames < 2^40, flags outside bits 12-51 (outside it SetFrame ors frame bits into other fields: agreement only, example C04_frame_domain_needed), frames handed out by the allocator are fresh and distinct (what C01 guarantees), page tables do not alias (ghost ownership map in Inv)',
+        "TLB coherence of the recursive window while an inactive table is patched into slot 511 is outside the model; PageDirectoryTable.Map/Unmap dereference the active root's physical address (identity-mapped in the kernel during boot), modelled as a physical access",
+        'C04_histories covers Map/Unmap/Translate on the active space with the zero-frame guard unarmed; MapRegion/IdentityMapRegion, MapTemporary, Init and inactive spaces are covered by per-operation theorems and by the correspondence',
+        'huge-page and poked (fabricated) upper-level entries: agreement only (errNoHugePageSupport paths are exercised by the correspondence, not by the monitor)']
     partial = []
 
     def gen_cases(self, rng, tier):
